@@ -38,8 +38,8 @@ def run(prog, rep, tier):
     r11_1(prog, rep)
     r11_2(prog, rep)
     r11_3(prog, rep)
-    r11_4(prog, rep)
     r11_5(prog, rep)
+    r11_4(prog, rep)
     r11_6(prog, rep)
     r11_7(prog, rep)
     rep.floor("R11.1", 5)
@@ -314,7 +314,11 @@ def r11_4(prog, rep):
         "callee resolution never sees the data frame", f"params {g.params}")
     for n in range(1, 6):
         sym = _Sym(g, n)
-        res = sym.run(g.body)
+        try:
+            res = sym.run(g.body)
+        except AnalysisError as e:
+            rep.defer(f"R11.4: {e}")
+            break
         want = ("lookup", ("part", 0))
         for i in range(1, n):
             want = ("getattr", want, ("part", i))
@@ -354,6 +358,14 @@ def r11_5(prog, rep):
                 returns_value = any(isinstance(n, ast.Return) and n.value is not None for n in ast.walk(h))
                 if returns_value:
                     bad.append(f"except {names}: return ...")
+        # no memoisation of resolved objects: every lookup goes through the scopes of THIS call
+        locals_ = set(f.params) | {x.id for x in ast.walk(f.node) if isinstance(x, ast.Name) and isinstance(x.ctx, ast.Store)}
+        for nm in {x.id for x in ast.walk(f.node) if isinstance(x, ast.Name)} - locals_:
+            kind_, gq = prog.resolve(f.module, nm)
+            if kind_ == "var" and gq not in ("formulae.transforms.TRANSFORMS", "formulae.categorical.ENCODINGS", "formulae.config.config"):
+                vals = prog.modules[gq.rsplit(".", 1)[0]].globals.get(nm, [])
+                if any(v is not None and isinstance(v, (ast.Dict, ast.List, ast.Set, ast.Call)) for v in vals):
+                    bad.append(f"module-level state `{gq}` (cache)")
         obl(rep, f, f.node, "R11.5", not bad, f"{f.qual.split('.', 1)[1]}: no silent default on the resolution path",
             "no .get(name, default), no 3-argument getattr, no eval/globals/builtins fallback, no handler that returns a value",
             f"silent fallback(s) on the resolution path: {bad}")
